@@ -44,14 +44,20 @@ class num_relocations:
     ensures = ["result == self._size // self.entry_size"]
 
 
+RelEntryT = Rec(r_offset=U64, r_info=U64, r_info_sym=U32, r_info_type=U32, r_addend=S(64))
+
+
 @contract("elftools/elf/relocation.py", "RelocationTable.get_relocation", props=["C08"])
 class get_relocation:
     """entry n lives at offset + n * entry size; REL or RELA layout by the table's flavour"""
     params = dict(self=_RelTab(), n=Nat)
     requires = TAB_INV
-    returns = Obj('Relocation', entry=Any)
-    ghost = {"$o": "self._offset + n * self.entry_size"}
-    ensures = ["result.entry == P('Elf_Rela' if self._is_rela else 'Elf_Rel', self._stream.B, $o)"]
+    returns = Obj('Relocation', entry=RelEntryT)
+    ghost = {"$o": "self._offset + n * self.entry_size",
+             "$e": "P('Elf_Rela' if self._is_rela else 'Elf_Rel', self._stream.B, self._offset + n * self.entry_size)"}
+    ensures = ["result.entry.r_offset == $e.r_offset", "result.entry.r_info == $e.r_info",
+               "result.entry.r_info_sym == $e.r_info_sym", "result.entry.r_info_type == $e.r_info_type",
+               "not self._is_rela or result.entry.r_addend == $e.r_addend"]
     raises = {"ELFParseError": "$o + self.entry_size > len(self._stream.B)"}
 
 
@@ -60,9 +66,11 @@ class iter_relocations:
     """exactly the encoded entries in index order"""
     params = dict(self=_RelTab())
     requires = TAB_INV
-    yield_shape = Obj('Relocation', entry=Any)
+    yield_shape = Obj('Relocation', entry=RelEntryT)
     loops = {0: dict(invariant=["$k == $n"])}
-    each_yield = ["value.entry == P('Elf_Rela' if self._is_rela else 'Elf_Rel', self._stream.B, self._offset + $n * self.entry_size)"]
+    each_yield = ["value.entry.%s == P('Elf_Rela' if self._is_rela else 'Elf_Rel', self._stream.B, self._offset + $n * self.entry_size).%s" % (f, f)
+                  for f in ('r_offset', 'r_info', 'r_info_sym', 'r_info_type')] + \
+                 ["not self._is_rela or value.entry.r_addend == P('Elf_Rela', self._stream.B, self._offset + $n * self.entry_size).r_addend"]
     ensures = ["$n == self._size // self.entry_size"]
     may_raise = ["ELFParseError", "OverflowError"]
 
